@@ -76,6 +76,24 @@ CLAIMED = {
                 design_ref="DESIGN.md §3 C18",
                 note="Rendered text is not compared with a reference (totality is what the property demands; the structured log is compared).",
                 technique="TLA+ spec + TLC model checking; TLC trace validation against an independent flow history"),
+    "C13": dict(category="model_checking",
+                text="TLC explores the brk rules (Brk.tla) on a reference heap next to a neighbouring area: no overlap, bytes below the break retained "
+                     "across moves, query returns the break. Guest brk syscalls through the built-in handler are interleaved with guest stores/loads "
+                     "into the heap under surrounding layouts (occupied first candidates, a small neighbour above the heap reachable only by a brk that "
+                     "jumps over it), with query/grow/shrink/regrow-to-previous-break/below-base sequences; TLC validates every call against Brk.tla "
+                     "using the handler's bounds, the heap area's sparse bytes and the other areas logged after every call.",
+                design_ref="DESIGN.md §3 C13",
+                note="Heap base is read through the cfg(ax_verif) accessor. Regrown bytes are unspecified; accesses at/above the break are not judged.",
+                technique="TLA+ spec + TLC model checking; TLC trace validation of guest brk/heap-access histories"),
+    "C14": dict(category="model_checking",
+                text="TLC explores Pipe.tla with history variables (everything written to / read from each pipe): read-out is a prefix of written, "
+                     "written = read-out + buffer, pipes disjoint, reads bounded by request and availability. All model edges and seeded random "
+                     "interleavings (<= 3 pipes, both call directions on both ends, non-pipe descriptors, sizes beyond availability, bad source/"
+                     "destination memory) are executed as guest syscalls with a user Syscall hook registered after the built-in handler; TLC validates "
+                     "each call and the FIFO history statement on the recorded run; non-pipe calls must reach the user hook, pipe calls must not.",
+                design_ref="DESIGN.md §3 C14",
+                note="Descriptor numbers/buffers come from the cfg(ax_verif) accessor. Zero-length transfers with bad memory may succeed or fail.",
+                technique="TLA+ spec with history variables + TLC model checking; TLC trace validation of guest syscall interleavings"),
 }
 NOT_YET = {}
 
